@@ -6,6 +6,7 @@ import Tapeverif.Model.Ed25519
 import Tapeverif.Model.Auth
 import Tapeverif.Model.Tools
 import Tapeverif.Model.SigPure
+import Tapeverif.Model.Asm
 /-! Line-protocol driver: one request per line on stdin, one reply per line on stdout. -/
 open TV
 
@@ -244,6 +245,37 @@ def handle (line : String) : String :=
       match mis.toNat?, parseCache ca, al.toNat?, parseList sgs, parseList vks with
       | some m, some cache, some a, some ss, some ks => showRB (SigPure.multisig Ed.hashes Ed.curve m cache a ss ks)
       | _, _, _, _, _ => "bad-op"
+  | ["DEC", h] => match ofHex h with
+      | some b => match Asm.decodeAll b with
+          | some is => "OK " ++ ";".intercalate (is.map fun i => toString i.code.toNat ++ ":" ++ ",".intercalate (i.fields.map hx))
+          | none => "ERR"
+      | none => "bad-op"
+  | ["REENC", h] => match ofHex h with
+      | some b => match Asm.decodeAll b with
+          | some is => hx (Asm.encodeSeq is)
+          | none => "ERR"
+      | none => "bad-op"
+  | ["LIST", h] => match ofHex h with
+      | some b => match Asm.listAll b with
+          | some ls => "OK " ++ "|".intercalate ls
+          | none => "ERR"
+      | none => "bad-op"
+  | ["LISTBLOCK", ln, st, cnt] =>
+      match ln.toNat?, st.toNat?, cnt.toNat? with
+      | some l, some s0, some c =>
+        let chunk : Bytes := ((List.range c).map fun i =>
+          let b := natToBytesBE l (s0 + i)
+          let line := match Asm.listAll b with
+            | some ls => "OK " ++ "|".intercalate ls
+            | none => "ERR"
+          asciiBytes line ++ [10]).flatten
+        toHex (Hash.sha256 chunk)
+      | _, _, _ => "bad-op"
+  | ["PUSHB", h] => match ofHex h with
+      | some b => match Tools.pushBytes b with
+          | some e => hx e
+          | none => "ERR"
+      | none => "bad-op"
   | ["RUN", c, ca, sc] => runCmd c ca sc false
   | ["AUTH", c, ca, sc] => runCmd c ca sc true
   | "PRIM" :: f :: args =>
